@@ -1100,3 +1100,494 @@ func sentinelTests(cond ssa.Value) []sentinelTest {
 	}
 	return out
 }
+
+// ---------------------------------------------------------------------------
+// R12c INDEX-CONFINEMENT (C07, C11, C13): the bytes of an index file are produced only by the index
+// package, which alone knows the two layouts (with and without file header). Outside it an index path
+// may be removed, renamed, stat'ed or opened for reading, nothing else.
+func (p *Prog) indexConfinement() []Ob {
+	allowed := map[string]bool{"os.Remove": true, "os.Rename": true, "os.Stat": true, "os.Lstat": true, "os.Open": true}
+	var bad []string
+	sites := 0
+	var first string
+	for _, fn := range p.Funcs {
+		if !srcFunc(fn) || funcPkgPath(fn) == pkgIndex {
+			continue
+		}
+		for _, b := range fn.Blocks {
+			for _, ins := range b.Instrs {
+				c, ok := ins.(*ssa.Call)
+				if !ok {
+					continue
+				}
+				g := c.Common().StaticCallee()
+				if g == nil || funcPkgPath(g) != "os" {
+					continue
+				}
+				for _, a := range c.Common().Args {
+					if bt, ok := a.Type().Underlying().(*types.Basic); !ok || bt.Kind() != types.String {
+						continue
+					}
+					pc := p.classifyPath(a)
+					if (pc.kind == "seg" || pc.kind == "concat") && pc.fld == "Index" {
+						sites++
+						if first == "" {
+							first = p.at(c)
+						}
+						if !allowed[calleeName(c.Common())] {
+							bad = append(bad, fmt.Sprintf("%s: %s(%s) in %s", p.at(c), calleeName(c.Common()), pc, funcLabel(fn)))
+						}
+					}
+				}
+			}
+		}
+	}
+	ob := Ob{Rule: "R12", Inst: "c:index-confinement", Props: []string{"C07", "C11", "C13"}, Pos: first, Nontrivial: true}
+	sort.Strings(bad)
+	switch {
+	case len(bad) > 0:
+		ob.Status, ob.Msg, ob.Path = Violated, "an index file is changed outside the index package, by code that has to assume one of its two layouts (with / without file header)", bad
+	case sites == 0:
+		ob.Pos, ob.Status, ob.Msg = "-", Undecided, "no operation on a segment's index path found outside the index package (the rule no longer sees what it is about)"
+	default:
+		ob.Status, ob.Msg = Discharged, fmt.Sprintf("%d operations on an index path outside the index package, all of them remove / rename / stat / open-for-reading", sites)
+	}
+	return []Ob{ob}
+}
+
+// R11 L8 SCAN-BEFORE-VERDICT: a function that scans a log and reports only an error says "fine" only
+// after the scan: every success return is dominated by the scan loop.
+func (p *Prog) scanBeforeVerdict() []Ob {
+	var obs []Ob
+	ea := p.ErrAtomsCached()
+	seen := map[*ssa.Function]bool{}
+	for _, cl := range p.copyLoops() {
+		if cl.loop == nil || seen[cl.fn] {
+			continue
+		}
+		fn := cl.fn
+		res := fn.Signature.Results()
+		if res.Len() != 1 || !isErrType(res.At(0).Type()) {
+			continue // functions that also return data are judged by what they return (R24, L1-L3)
+		}
+		seen[fn] = true
+		serves07 := false
+		for _, pr := range p.copyLoopProps(cl) {
+			if pr == "C07" {
+				serves07 = true
+			}
+		}
+		if !serves07 {
+			continue // a migration may find nothing to do before it reads anything
+		}
+		ob := Ob{Rule: "R11", Inst: "L8:" + funcLabel(fn) + ":scan-before-verdict", Props: p.copyLoopProps(cl), Pos: p.at(cl.read), Func: funcLabel(fn), Nontrivial: true}
+		var bad []string
+		for _, rt := range returnsOf(fn) {
+			if ea.isFailureReturn(fn, rt) {
+				continue
+			}
+			if !cl.header.Dominates(rt.Block()) {
+				bad = append(bad, p.at(rt)+": success is returned on a path that never scanned the log")
+			}
+		}
+		if len(bad) > 0 {
+			ob.Status, ob.Msg, ob.Path = Violated, "the function can report the segment as fine without having read its log", bad
+		} else {
+			ob.Status, ob.Msg = Discharged, "every success return lies behind the scan of the log"
+		}
+		obs = append(obs, ob)
+	}
+	return obs
+}
+
+// R10h EOF-ORIGIN: a record decoder reports the clean end of the data only by handing on what the
+// file read reported; where it produces io.EOF itself, a test of the read error for io.EOF dominates.
+func (p *Prog) eofOrigin() []Ob {
+	var obs []Ob
+	isEOFLoad := func(v ssa.Value) bool { return sentinelOperand(v) == "X:io.EOF" }
+	for _, fn := range p.R.RecDecoders {
+		ei := errResultIndex(fn)
+		if ei < 0 {
+			continue
+		}
+		ob := Ob{Rule: "R10", Inst: "h:eof-origin:" + funcLabel(fn), Props: []string{"C07", "C14", "C05"}, Pos: p.posStr(fn.Pos()), Func: funcLabel(fn), Nontrivial: true}
+		var bad []string
+		for _, rt := range returnsOf(fn) {
+			v := returnOperand(rt, ei)
+			orig := isEOFLoad(v)
+			if c, ok := v.(*ssa.Call); ok && calleeName(c.Common()) == "fmt.Errorf" {
+				for _, a := range c.Call.Args[1:] {
+					for _, e := range variadicArgs(a) {
+						if e == nil {
+							continue
+						}
+						if mi, ok := e.(*ssa.MakeInterface); ok {
+							e = mi.X
+						}
+						if isEOFLoad(e) {
+							orig = true
+						}
+					}
+				}
+			}
+			if !orig {
+				continue
+			}
+			dom := false
+			for _, hb := range fn.Blocks {
+				iff, ok := terminator(hb).(*ssa.If)
+				if !ok {
+					continue
+				}
+				for _, t := range sentinelTests(iff.Cond) {
+					if t.atom == "X:io.EOF" && edgeDominates(hb, t.edge, rt.Block()) {
+						dom = true
+					}
+				}
+			}
+			if !dom {
+				bad = append(bad, p.at(rt)+": io.EOF is returned where no file read reported it")
+			}
+		}
+		if len(bad) > 0 {
+			ob.Status, ob.Msg, ob.Path = Violated, "the decoder declares the data ended on something it decoded, not on what the file read reported: damaged or zero-filled bytes are taken for the clean end of the segment", bad
+		} else {
+			ob.Status, ob.Msg = Discharged, "the clean end of the data is only ever what the file read reported"
+		}
+		obs = append(obs, ob)
+	}
+	return obs
+}
+
+// ---------------------------------------------------------------------------
+// R19c CONFIGURED-VERSION-VERBATIM (C17): the version a head writer / segment reader keeps for what
+// it creates next is the configured one, handed down unchanged; it is never replaced by what a file
+// on disk happens to be written in.
+func (p *Prog) configuredVersionVerbatim() []Ob {
+	var obs []Ob
+	vt := p.pkgType(pkgRoot, "Version")
+	if vt == nil {
+		return []Ob{{Rule: "R19", Inst: "c:configured-version", Props: []string{"C17"}, Pos: "-", Status: Undecided, Msg: "type Version not found in the root package"}}
+	}
+	n := 0
+	for _, fn := range p.Funcs {
+		if !srcFunc(fn) {
+			continue
+		}
+		k := 0
+		for _, b := range fn.Blocks {
+			for _, ins := range b.Instrs {
+				st, ok := ins.(*ssa.Store)
+				if !ok {
+					continue
+				}
+				fa, ok := st.Addr.(*ssa.FieldAddr)
+				if !ok {
+					continue
+				}
+				f := fieldVarOfAddr(fa)
+				if f == nil || namedOf(f.Type()) != vt {
+					continue
+				}
+				owner := namedOf(derefPtr(fa.X.Type()))
+				if owner != p.R.HeadWriter && owner != p.R.SegReader && owner != p.R.Impl {
+					continue
+				}
+				n++
+				k++
+				ob := Ob{Rule: "R19", Inst: fmt.Sprintf("c:configured-version:%s#%d", funcLabel(fn), k), Props: []string{"C17"}, Pos: p.at(st), Func: funcLabel(fn)}
+				v := canon(st.Val)
+				verbatim := false
+				if _, isParam := v.(*ssa.Parameter); isParam {
+					verbatim = true
+				} else if lf, _ := loadedField(v); lf != nil && namedOf(lf.Type()) == vt {
+					verbatim = true
+				}
+				if verbatim {
+					ob.Status, ob.Msg = Discharged, "the kept version is the one handed down, unchanged"
+				} else {
+					ob.Status, ob.Msg = Violated, "the version kept for what is created next ("+v.String()+") is not the configured one handed down: new head segments then follow a file on disk instead of NewSegmentsVersion"
+				}
+				obs = append(obs, ob)
+			}
+		}
+	}
+	if n == 0 {
+		obs = append(obs, Ob{Rule: "R19", Inst: "c:configured-version", Props: []string{"C17"}, Pos: "-", Status: Undecided, Msg: "no store of a configured version found"})
+	}
+	return obs
+}
+
+// R19d EAGER-MIGRATION-BY-OPTION (C17): whether a segment is migrated at Open is decided by the
+// options and by nothing read from a file: no branch that dominates the call of Segment.Migrate in
+// Open depends on the result of a call (other than an error check or len).
+func (p *Prog) eagerMigrationByOption() []Ob {
+	var obs []Ob
+	open := p.R.Open
+	mig := p.methodOf(p.R.Segment, "Migrate")
+	if open == nil || mig == nil {
+		return []Ob{{Rule: "R19", Inst: "d:eager-migration", Props: []string{"C17"}, Pos: "-", Status: Undecided, Msg: "Open or Segment.Migrate not found"}}
+	}
+	var dependsOnCall func(v ssa.Value, d int) string
+	dependsOnCall = func(v ssa.Value, d int) string {
+		if d > 8 {
+			return ""
+		}
+		switch x := v.(type) {
+		case *ssa.Call:
+			if _, isB := x.Common().Value.(*ssa.Builtin); isB {
+				return ""
+			}
+			return calleeName(x.Common())
+		case *ssa.Extract:
+			if c, ok := x.Tuple.(*ssa.Call); ok {
+				return calleeName(c.Common())
+			}
+		case *ssa.BinOp:
+			if s := dependsOnCall(x.X, d+1); s != "" {
+				return s
+			}
+			return dependsOnCall(x.Y, d+1)
+		case *ssa.UnOp:
+			if x.Op == token.MUL {
+				if al, ok := x.X.(*ssa.Alloc); ok {
+					for _, st := range allocStores(al) {
+						if s := dependsOnCall(st.Val, d+1); s != "" {
+							return s
+						}
+					}
+					return ""
+				}
+				return "" // a field or global load
+			}
+			return dependsOnCall(x.X, d+1)
+		case *ssa.Phi:
+			for _, e := range x.Edges {
+				if s := dependsOnCall(e, d+1); s != "" {
+					return s
+				}
+			}
+		case *ssa.Convert:
+			return dependsOnCall(x.X, d+1)
+		case *ssa.ChangeType:
+			return dependsOnCall(x.X, d+1)
+		}
+		return ""
+	}
+	n := 0
+	for _, b := range open.Blocks {
+		for _, ins := range b.Instrs {
+			c, ok := ins.(*ssa.Call)
+			if !ok || c.Common().StaticCallee() != mig {
+				continue
+			}
+			n++
+			ob := Ob{Rule: "R19", Inst: fmt.Sprintf("d:eager-migration#%d", n), Props: []string{"C17"}, Pos: p.at(c), Func: funcLabel(open), Nontrivial: true}
+			var bad []string
+			for d := b; d != nil; d = d.Idom() {
+				id := d.Idom()
+				if id == nil {
+					break
+				}
+				iff, ok := terminator(id).(*ssa.If)
+				if !ok {
+					continue
+				}
+				// only branches one of whose edges really decides whether the call runs
+				if !edgeDominates(id, 0, b) && !edgeDominates(id, 1, b) {
+					continue
+				}
+				// error checks and range conditions are not decisions about the segment
+				cond := iff.Cond
+				if bo, ok := cond.(*ssa.BinOp); ok && (isNilConst(bo.X) || isNilConst(bo.Y)) {
+					continue
+				}
+				if s := dependsOnCall(cond, 0); s != "" {
+					bad = append(bad, fmt.Sprintf("%s: whether the segment is migrated depends on the result of %s", p.at(iff), s))
+				}
+			}
+			if len(bad) > 0 {
+				ob.Status, ob.Msg, ob.Path = Violated, "the eager migration at Open is conditional on something computed from a call, not only on the options: segments that need migrating can be passed over", uniqStrings(bad)
+			} else {
+				ob.Status, ob.Msg = Discharged, "only option tests, error checks and the loop over the segments stand between Open's entry and Segment.Migrate"
+			}
+			obs = append(obs, ob)
+		}
+	}
+	if n == 0 {
+		obs = append(obs, Ob{Rule: "R19", Inst: "d:eager-migration", Props: []string{"C17"}, Pos: "-", Status: Undecided, Msg: "Open does not call Segment.Migrate"})
+	}
+	return obs
+}
+
+// ---------------------------------------------------------------------------
+// R10i FRESH-MESSAGE (C09, C01, C11): the record decoders fill in only the fields that are present
+// (an empty key or value is left as it is), so the Message they decode into must be a fresh one: a
+// local that does not outlive one iteration, or an element of a slice made for the purpose.
+func (p *Prog) freshMessage() []Ob {
+	var obs []Ob
+	dec := map[*ssa.Function]bool{}
+	for _, d := range p.R.RecDecoders {
+		dec[d] = true
+	}
+	msgPtr := func(t types.Type) bool {
+		pt, ok := t.Underlying().(*types.Pointer)
+		return ok && namedOf(pt.Elem()) == p.R.Message
+	}
+	type site struct {
+		call ssa.CallInstruction
+		arg  ssa.Value
+	}
+	var judge func(s site, depth int) []string
+	callersOf := func(fn *ssa.Function) []site {
+		var out []site
+		for _, g := range p.Funcs {
+			for _, b := range g.Blocks {
+				for _, ins := range b.Instrs {
+					c, ok := ins.(ssa.CallInstruction)
+					if !ok || c.Common().StaticCallee() != fn {
+						continue
+					}
+					for _, a := range c.Common().Args {
+						if msgPtr(a.Type()) {
+							out = append(out, site{c, a})
+						}
+					}
+				}
+			}
+		}
+		return out
+	}
+	judge = func(s site, depth int) []string {
+		b := s.call.Block()
+		_, loop := innermostLoop(b)
+		switch x := s.arg.(type) {
+		case *ssa.Alloc:
+			if loop != nil && !loop[x.Block()] {
+				return []string{p.at(s.call) + ": the Message decoded into is declared outside the loop and reused for every record: a record without key (or value) keeps the previous record's"}
+			}
+			return nil
+		case *ssa.IndexAddr:
+			return nil // an element of a slice; each index is decoded into once
+		case *ssa.Parameter:
+			if depth > 3 {
+				return []string{p.at(s.call) + ": too many levels of pass-through"}
+			}
+			var bad []string
+			for _, cs := range callersOf(s.call.Parent()) {
+				bad = append(bad, judge(cs, depth+1)...)
+			}
+			return bad
+		case *ssa.FieldAddr:
+			return []string{p.at(s.call) + ": the Message decoded into is a field of a longer-lived object"}
+		}
+		return []string{p.at(s.call) + ": the Message decoded into is " + s.arg.String()}
+	}
+	n := 0
+	for _, fn := range p.Funcs {
+		if !srcFunc(fn) {
+			continue
+		}
+		k := 0
+		for _, b := range fn.Blocks {
+			for _, ins := range b.Instrs {
+				c, ok := ins.(*ssa.Call)
+				if !ok || c.Common().StaticCallee() != nil {
+					continue
+				}
+				isDec := false
+				for _, g := range p.callees(c) {
+					if dec[g] || dec[unwrapSynthetic(g)] {
+						isDec = true
+					}
+				}
+				if !isDec {
+					continue
+				}
+				for _, a := range c.Common().Args {
+					if !msgPtr(a.Type()) {
+						continue
+					}
+					n++
+					k++
+					ob := Ob{Rule: "R10", Inst: fmt.Sprintf("i:fresh-message:%s#%d", funcLabel(fn), k), Props: []string{"C09", "C01", "C11"}, Pos: p.at(c), Func: funcLabel(fn), Nontrivial: true}
+					if bad := judge(site{c, a}, 0); len(bad) > 0 {
+						ob.Status, ob.Msg, ob.Path = Violated, "a record is decoded into a Message that may still hold the fields of an earlier record", uniqStrings(bad)
+					} else {
+						ob.Status, ob.Msg = Discharged, "the Message decoded into is fresh for every record"
+					}
+					obs = append(obs, ob)
+				}
+			}
+		}
+	}
+	if n == 0 {
+		obs = append(obs, Ob{Rule: "R10", Inst: "i:fresh-message", Props: []string{"C09", "C01", "C11"}, Pos: "-", Status: Undecided, Msg: "no call of a record decoder through the reader's function value found"})
+	}
+	return obs
+}
+
+// R36b INDEX-WRAPPERS: the head's and a closed segment's index objects answer lookups by handing
+// on what the shared pure lookup of the index package computed; a position they return with success
+// is that function's result (or a constant such as -1 for "caught up"), never one they picked
+// themselves — the two siblings then cannot disagree, and the search is the one R9/R35/R36 judge.
+func (p *Prog) indexWrappers() []Ob {
+	var obs []Ob
+	ea := p.ErrAtomsCached()
+	propsOf := map[string][]string{"Time": {"C10"}, "Keys": {"C09"}, "Get": {"C04"}, "Consume": {"C03"}}
+	for _, fn := range p.Funcs {
+		if !srcFunc(fn) || fn.Parent() != nil {
+			continue
+		}
+		rn := recvNamed(fn)
+		if rn != p.R.HeadIndex && rn != p.R.ReaderIndex {
+			continue
+		}
+		var lookups []*ssa.Call
+		for _, b := range fn.Blocks {
+			for _, ins := range b.Instrs {
+				if c, ok := ins.(*ssa.Call); ok {
+					if g := c.Common().StaticCallee(); g != nil && funcPkgPath(g) == pkgIndex && errResultIndex(g) >= 0 && g.Signature.Recv() == nil {
+						lookups = append(lookups, c)
+					}
+				}
+			}
+		}
+		if len(lookups) == 0 || errResultIndex(fn) < 0 {
+			continue
+		}
+		props := propsOf[fn.Name()]
+		if props == nil {
+			props = []string{"C03", "C04"}
+		}
+		ob := Ob{Rule: "R36", Inst: "index-wrapper:" + funcLabel(fn), Props: props, Pos: p.at(lookups[0]), Func: funcLabel(fn), Nontrivial: true}
+		var bad []string
+		for _, rt := range returnsOf(fn) {
+			if ea.isFailureReturn(fn, rt) {
+				continue
+			}
+			v := canon(returnOperand(rt, 0))
+			okV := false
+			if _, isK := v.(*ssa.Const); isK {
+				okV = true
+			}
+			if ex, isEx := v.(*ssa.Extract); isEx {
+				for _, c := range lookups {
+					if ex.Tuple == ssa.Value(c) {
+						okV = true
+					}
+				}
+			}
+			if !okV {
+				bad = append(bad, fmt.Sprintf("%s: returns %s with success", p.at(rt), v.String()))
+			}
+		}
+		if len(bad) > 0 {
+			ob.Status, ob.Msg, ob.Path = Violated, "the index object answers a lookup with a position it picked itself instead of what the shared lookup computed: the head and closed segments can then answer the same question differently", bad
+		} else {
+			ob.Status, ob.Msg = Discharged, "every position returned with success is what the shared lookup of the index package computed (or a constant)"
+		}
+		obs = append(obs, ob)
+	}
+	return obs
+}
